@@ -117,7 +117,7 @@ def run(pid, tier, repo, work):
             continue
         path = os.path.join(vwork, f"extracted_{unit}.rs")
         open(path, "w").write(text)
-        out["extraction"].append({"unit": unit, "from": where, "file": path, "dropped": "attributes, doc comments, visibility; result named (r: T); contract spliced between signature and body"})
+        out["extraction"].append({"unit": unit, "from": where, "file": path, "dropped": "attributes, doc comments, visibility; result named (r: T); contract spliced between signature and body; a by-value `mut self` receiver desugared to `self` + `let mut self_ = self;` with `self` renamed in the body"})
         rc, res, err, dt = run_verus(path, vwork)
         out["time_s"] += dt
         vr = (res or {}).get("verification-results", {})
